@@ -35,6 +35,8 @@ def run_case(name, lines, harness=None, leaks=False):
     r = CaseResult()
     r.name, r.lines, r.log, r.rc = name, lines, out, rc
     r.san = common.san_line(err) if rc != 0 else ""
+    if rc in (-14, -9) and not r.san:
+        r.san = "TIMEOUT: the library did not return (killed by the harness watchdog)"
     if rc != 0 and not r.san:
         r.san = "harness exit %d %s" % (rc, err.strip().splitlines()[-1][:160] if err.strip() else "")
     b = common.run_cmd([common.REPLAY_BIN, "loop"], out, timeout=120)
